@@ -108,6 +108,16 @@ def forward(sh, batch):
             if d.l != len(b):
                 sh.violation('fwd/%s/%s/len' % (fam, shape), '%r -> candidate %s decodes with length %d' % (line, b.hex(), d.l), wit)
                 continue
+            # the candidate placed in a buffer, read through a stream positioned on it (nothing after it): accepted all the same
+            if len(b) % 4 == 1:
+                from miasmx.core.bin_stream import bin_stream
+                try:
+                    d2 = x86mnemo.dis(bin_stream(b'\x90' * 7 + b, 7))
+                    got = None if d2 is None else (d2.l, bytes(d2.b))
+                except Exception as e:
+                    got = 'raises %s' % type(e).__name__
+                if got != (len(b), b):
+                    sh.violation('fwd/stream-at-offset/%s' % ('rejected' if got is None else 'differs'), '%r -> candidate %s read from a stream positioned at offset 7: %r' % (line, b.hex(), got), wit)
             try:
                 txt = str(d)
             except Exception as e:
